@@ -53,6 +53,25 @@ Theorem C16_next : forall now p g, dom_p p -> dom_g g -> dom_t g now ->
 Proof. intros now p g; exact (next_round_is_current_plus_one time_buffer_bits now p g C16_buffer_const). Qed.
 Print Assumptions C16_next.
 
+(* round -> time -> round: every instant of a schedulable round's slot (its scheduled time plus
+   less than one period) converts back to exactly that round *)
+Theorem C16_round_of_its_time : forall p g r d, dom_p p -> dom_g g -> 1 <= r -> r + 1 < two64 ->
+  time_of_round time_buffer_bits p g r <> err_val time_buffer_bits ->
+  time_of_round time_buffer_bits p g (r + 1) <> err_val time_buffer_bits ->
+  0 <= d < p -> dom_t g (time_of_round time_buffer_bits p g r + d) ->
+  current_round (time_of_round time_buffer_bits p g r + d) p g = r.
+Proof. intros p g r d; exact (round_of_its_time time_buffer_bits p g r d C16_buffer_const). Qed.
+Print Assumptions C16_round_of_its_time.
+
+(* time -> round -> time: the current round's scheduled time is exactly g + (c-1)p, at or before
+   the instant and less than one period before it *)
+Theorem C16_time_of_current_round : forall now p g, dom_p p -> dom_g g -> dom_t g now ->
+  let c := current_round now p g in
+  time_of_round time_buffer_bits p g c = g + (c - 1) * p /\
+  time_of_round time_buffer_bits p g c <= now < time_of_round time_buffer_bits p g c + p.
+Proof. intros now p g; exact (time_of_current_round time_buffer_bits now p g C16_buffer_const). Qed.
+Print Assumptions C16_time_of_current_round.
+
 Theorem C16_before_genesis : forall now p g, now < g ->
   next_round now p g = (1, g) /\ current_round now p g = 1.
 Proof. exact before_genesis. Qed.
@@ -77,5 +96,6 @@ Example C16_nonvacuous :
   dom_p 30 /\ dom_g 1595431050 /\ dom_t 1595431050 1700000000 /\
   current_round 1700000000 30 1595431050 = 3485632 /\
   time_of_round time_buffer_bits 30 1595431050 3485632 = 1699999980 /\
-  time_of_round time_buffer_bits 30 1595431050 (two64 - 1) = err_val time_buffer_bits.
+  time_of_round time_buffer_bits 30 1595431050 (two64 - 1) = err_val time_buffer_bits /\
+  current_round (time_of_round time_buffer_bits 30 1595431050 3485632 + 29) 30 1595431050 = 3485632.
 Proof. unfold dom_p, dom_g, dom_t. repeat split; try (vm_compute; discriminate); vm_compute; reflexivity. Qed.
